@@ -123,9 +123,12 @@ UploadReport5(cfg, files, w, X) == UploadReport(Approved5, cfg, files, w, X)
 (* program entries a report may name at all                                   *)
 UploadBuilds(A(_, _), cfg, files, w) == {f.build : f \in {f \in WeekFiles(files, w) : A(cfg, f.build)}}
 
-(* a report is only uploadable when its X passes the sampling rate (0 = no   *)
-(* sampling)                                                                  *)
-Sampled(cfg, X) == cfg.sample = 0 \/ X <= cfg.sample
+(* Whether a report is uploaded at all also depends on the sampling rate of   *)
+(* the configuration, about which the statements are silent: they constrain   *)
+(* the reports that ARE sent.  That a report with approved data must be sent  *)
+(* is demanded only where no reading of "sample rate" could drop it: the rate *)
+(* is 1, or X lies strictly below it.                                         *)
+MustSend(cfg, X, D) == cfg.sample = D \/ X < cfg.sample
 
 (* C01 as a relation between the input and an observed request body: `progs` *)
 (* the builds the body names, `data` its (build, name, value) triples.  The  *)
